@@ -22,7 +22,7 @@ RULE = ("(a) histories of 2-8 connections opening, calling and closing against r
         "non-trivial = more than one connection or thread involved")
 ASSUMPTIONS = ["a slow constructor (sleep) is a legitimate application behaviour that widens the race window without touching Pyro",
                "scheduling points = source lines of Daemon._getInstance (and its nested createInstance) only"]
-REQUIRED_REACH = ["single_ok", "session_ok", "percall_ok", "creator_counts_ok", "failing_creator_ok", "racing_first_calls", "session_instances_dropped", "schedules_explored", "multi_daemon_ok", "oneway_first_requests"]
+REQUIRED_REACH = ["single_ok", "session_ok", "percall_ok", "creator_counts_ok", "failing_creator_ok", "racing_first_calls", "session_instances_dropped", "schedules_explored", "multi_daemon_ok", "oneway_first_requests", "registered_class_inherits_behavior"]
 SHARD_TIMEOUT = {"quick": 240, "thorough": 2800}
 SHAPES = ["truthy", "falsy_len", "falsy_bool", "eq_always"]
 CREATORS = ["none", "ok", "raises", "raises_type", "wrongtype", "subclass"]     # subclass: the creator returns an instance of a subclass (allowed by the daemon's isinstance check)
@@ -43,7 +43,7 @@ class Book:
         self.creator_without_class = 0
 
 
-def make_class(P, mode, shape, creator, slow=0.0):
+def make_class(P, mode, shape, creator, slow=0.0, inherit=False):
     book = Book()
     ctx = P.callcontext.current_context
 
@@ -106,17 +106,24 @@ def make_class(P, mode, shape, creator, slow=0.0):
             book.creator_results += 1
         return obj
     Inst = P.server.behavior(instance_mode=mode, instance_creator=None if creator == "none" else mk)(Inst)
+    if inherit:
+        # the class that gets registered is a plain subclass: it inherits exposure, instance mode and creator from its decorated base
+        Inst = type("Registered" + Inst.__name__, (Inst,), {})
     return Inst, book
 
 
-def socket_case(fx, mode, shape, creator, nconn, ncalls, rec, r, sername, race):
+def socket_case(fx, mode, shape, creator, nconn, ncalls, rec, r, sername, race, inherit=None):
     P = fx.P
+    if inherit is None:
+        inherit = r.random() < 0.3
+    if inherit:
+        rec.count("registered_class_inherits_behavior")
     slow = r.choice([0.001, 0.004, 0.01]) if race else (r.choice([0.0, 0.06, 0.1]) if mode == "session" else 0.0)      # (Nagle + delayed ACK put ~40 ms between a oneway request and the next one)
-    cls, book = make_class(P, mode, shape, creator, slow)
+    cls, book = make_class(P, mode, shape, creator, slow, inherit)
     objid = "cls%d" % r.randrange(10 ** 9)
     fx.daemon.register(cls, objid)
-    pay = {"mode": mode, "shape": shape, "creator": creator, "nconn": nconn, "ncalls": ncalls, "race": race, "servertype": fx.servertype, "serializer": sername}
-    rec.case(("sock", mode, shape, creator, nconn, ncalls, race, fx.servertype, sername), nontrivial=nconn > 1, sample=pay if rec.evaluations % 40 == 3 else None)
+    pay = {"mode": mode, "shape": shape, "creator": creator, "nconn": nconn, "ncalls": ncalls, "race": race, "servertype": fx.servertype, "serializer": sername, "inherit": inherit}
+    rec.case(("sock", mode, shape, creator, nconn, ncalls, race, fx.servertype, sername, inherit), nontrivial=nconn > 1, sample=pay if rec.evaluations % 40 == 3 else None)
     results = {}
     errors = {}
     barrier = threading.Barrier(nconn)
@@ -505,6 +512,6 @@ def replay(payload, rec):
         return
     fx = fixture.Fixture(servertype=payload["servertype"], COMMTIMEOUT=0.0, THREADPOOL_SIZE=40, THREADPOOL_SIZE_MIN=2)
     try:
-        socket_case(fx, payload["mode"], payload["shape"], payload["creator"], payload["nconn"], payload["ncalls"], rec, r, payload["serializer"], payload["race"])
+        socket_case(fx, payload["mode"], payload["shape"], payload["creator"], payload["nconn"], payload["ncalls"], rec, r, payload["serializer"], payload["race"], payload.get("inherit", False))
     finally:
         fx.stop()
